@@ -1,10 +1,12 @@
 #!/bin/bash
 # Human summary of the baseline run: counts of pass/fail test events.
-"$(dirname "$0")/baseline_off.sh" > /verif/.work/baseline.json 2>/verif/.work/baseline.err; rc=$?
+export BLF=/verif/.work/baseline.$$.json
+"$(dirname "$0")/baseline_off.sh" > $BLF 2>/verif/.work/baseline.err; rc=$?
 python3 - <<'PY'
+import os
 import json
 p=f=0; failed=[]
-for l in open('/verif/.work/baseline.json'):
+for l in open(os.environ['BLF']):
     try: e=json.loads(l)
     except: continue
     if e.get('Test'):
@@ -12,4 +14,5 @@ for l in open('/verif/.work/baseline.json'):
         elif e['Action']=='fail': f+=1; failed.append(e['Package']+'::'+e['Test'])
 print('pass',p,'fail',f,failed[:10])
 PY
+rm -f $BLF
 exit $rc
